@@ -207,6 +207,9 @@ func Execute(t *testing.T, spec RunSpec) (res *RunResult) {
 		if s.Stats.TimerLate > 0 {
 			res.Faults["timer-late"] += s.Stats.TimerLate
 		}
+		if s.Stats.Starved > 0 {
+			res.Faults["task-starve"] += s.Stats.Starved
+		}
 		if s.Stats.ClockJumps > 0 {
 			res.Faults["spin-guard-jump"] += s.Stats.ClockJumps
 		}
